@@ -338,6 +338,102 @@ def run(ctx):
                 ctx.bad(R_sbo, "%s|string-block-offset" % norm(f.path).split("::")[-2] + "::" + norm(f.path).split("::")[-1], "%s:%d" % (f.file, cc["ln"]), "the string block is read at `%s` (size `%s`)" % (off[:70], size[:30]),
                         "this access path locates the strings by a rule of its own: for a file with trailing bytes (a smaller table written over a larger one, padding) it resolves every string reference to different text than the other paths")
 
+    # every resolver of a string reference accepts exactly the offsets inside the block (offset < len): the cached and uncached
+    # resolvers, and whatever other path resolves a reference, must agree on the last byte (a block whose only content is the
+    # terminating NUL — a table with nothing but empty strings — is referenced at offset len-1)
+    R_sb = ctx.rule("C17.string-resolvers-accept-every-offset-inside-the-block", "every out-of-bounds guard of a string-block resolver rejects offset o of a block of length n exactly when o >= n (n in 0..=6, o in 0..=7)", floor=2)
+    from .c10 import _bval as _bv, _NoEval as _NE
+    for f in c.fn_list:
+        if f.kind == "Closure" or not f.hir or "::tests::" in f.path or not re.search(r"::get_string$|::string_at$|::resolve_string$", norm(f.path)):
+            continue
+        body = f.hir["body"]
+        lets = {l["pat"]["name"]: l["init"] for l in hirq.find(body, "let") if l["pat"].get("k") == "bind" and l.get("init") is not None}
+        for g in hirq.find(body, "if"):
+            rets = [x for x in hirq.walk(g["then"]) if x.get("k") == "ret" and "OutOfBounds" in hirq.render(x.get("e"))]
+            if not rets or g["c"].get("k") == "letx":
+                continue
+            off = next((x["res"]["local"] for x in hirq.walk(g["c"]) if x.get("k") == "path" and (x.get("res") or {}).get("local") and re.search(r"off|pos|start|idx|index", x["res"]["local"])), None)
+            if off is None:
+                offl = [nm for nm, e in lets.items() if re.search(r"\.offset\(\)", hirq.render(e))]
+                off = offl[0] if offl else None
+            ctx.saw_fn(f)
+            inst = {"fn": norm(f.path).split("::", 1)[1], "guard": hirq.render(g["c"])[:60]}
+            if off is None:
+                ctx.note_unarmed(R_sb, inst, "offset variable of the guard not identified")
+                continue
+            bad = None
+            try:
+                for n_ in range(0, 7):
+                    for o_ in range(0, 8):
+                        env = {off: o_, "__leaf__": (lambda r_, n_=n_: n_ if re.search(r"\.len\(\)$|\.size\(\)$", r_) else None), "__ty__": c.ty}
+                        rej = _bv(g["c"], env, {k_: v_ for k_, v_ in lets.items() if k_ != off})
+                        if rej != (o_ >= n_) and bad is None:
+                            bad = (o_, n_, rej)
+            except _NE as e:
+                ctx.note_unarmed(R_sb, inst, "guard not evaluable (%s)" % e)
+                continue
+            if bad:
+                ctx.bad(R_sb, "%s|bounds-guard" % inst["fn"], "%s:%d" % (f.file, g.get("ln") or 0), "`%s` %s offset %d of a %d-byte block" % (inst["guard"], "rejects" if bad[2] else "accepts", bad[0], bad[1]),
+                        "a reference to a byte inside the block (the terminating NUL of a table whose strings are all empty) is refused on this path while the sibling resolvers return \"\": the access paths disagree and such a table cannot be written back" if bad[2] else
+                        "an offset outside the block reaches the slice expression")
+            else:
+                ctx.ok(R_sb, inst)
+
+    # the hashed key index exists whenever the schema names a key field — on every construction path (eager, lazy-loaded, parallel
+    # all end in RecordSet::new): the conditions under which the map is filled mention the schema only through `key_field_index`
+    # (a guard on another trait of the schema — validated, named, versioned — makes lookups fail on the paths that do not set it)
+    R_kg = ctx.rule("C17.key-index-built-whenever-the-schema-names-a-key", "in RecordSet: every condition on the way to an insertion into the key -> index map reads the schema only through key_field_index (no other Schema field, no filter / is_some_and / take_if on the optional schema)", floor=1)
+    for f in c.fn_list:
+        if f.kind == "Closure" or not f.hir or "::tests::" in f.path or not re.search(r"parser::RecordSet::", norm(f.path)):
+            continue
+        body = f.hir["body"]
+        for ins in hirq.walk(body):
+            if ins.get("k") != "mcall" or ins["m"] != "insert" or len(ins.get("args") or []) != 2:
+                continue
+            recv_ty = c.ty(hirq.strip(ins["recv"]).get("t")) or ""
+            if "HashMap" not in recv_ty or "usize" not in recv_ty:
+                continue
+            # conditions enclosing the insertion (if / if-let / match scrutinees), innermost last
+            conds = []
+
+            def rec(n, acc):
+                if n is ins:
+                    conds.extend(acc)
+                    return True
+                if isinstance(n, dict):
+                    if n.get("k") == "if":
+                        return rec(n["c"], acc) or rec(n["then"], acc + [n["c"]]) or (n.get("else") is not None and rec(n["else"], acc + [n["c"]]))
+                    if n.get("k") == "match":
+                        if rec(n["e"], acc):
+                            return True
+                        return any(rec(a, acc + [n["e"]]) for a in n["arms"])
+                    return any(rec(v, acc) for v in n.values() if isinstance(v, (dict, list)))
+                if isinstance(n, list):
+                    return any(rec(v, acc) for v in n)
+                return False
+            rec(body, [])
+            lets = {l["pat"]["name"]: l["init"] for l in hirq.find(body, "let") if l["pat"].get("k") == "bind" and l.get("init") is not None}
+            offending = None
+            seen_schema = False
+            for cnd in conds:
+                roots = [cnd] + [lets[x["res"]["local"]] for x in hirq.walk(cnd) if x.get("k") == "path" and (x.get("res") or {}).get("local") in lets]
+                for root in roots:
+                    for x in hirq.walk(root):
+                        bt = c.ty(hirq.strip(x.get("e") or x.get("recv") or {}).get("t")) or "" if x.get("k") in ("field", "mcall") else ""
+                        if "Schema" not in bt:
+                            continue
+                        seen_schema = True
+                        if x.get("k") == "field" and x["name"] not in ("key_field_index", "fields"):
+                            offending = offending or "the schema's `%s`" % x["name"]
+                        if x.get("k") == "mcall" and re.search(r"option::Option", bt) and x["m"] in ("filter", "is_some_and", "take_if", "filter_map", "is_none_or", "xor", "zip"):
+                            offending = offending or "`.%s(..)` on the optional schema" % x["m"]
+            inst = {"fn": norm(f.path).split("::")[-1], "conditions": [hirq.render(x)[:60] for x in conds]}
+            ctx.saw_fn(f)
+            if offending:
+                ctx.bad(R_kg, "%s|key-map-guard" % inst["fn"], "%s:%d" % (f.file, ins.get("ln") or 0), "the key index is filled only when %s allows it (conditions: %s)" % (offending, "; ".join(inst["conditions"])[:160]),
+                        "a record set built on a path that does not establish that trait (the parallel parser takes the caller's schema as it is) has no key index: get_record_by_key answers None for keys that are present, while the eager path answers them")
+            elif seen_schema or not conds:
+                ctx.ok(R_kg, inst)
     # the hashed key map holds record indices: what it stores per key is the record's position in `records`
     R_km = ctx.rule("C17.key-map-stores-record-index", "every insertion into the key -> index map stores the record's index in the record list (an enumerate() over the records, or the index element carried in the (key, index) pairs) — never a position in a derived/sorted list", floor=2)
     for f in c.fn_list:
